@@ -64,6 +64,9 @@ M = {
 	b.Txs = append''', '''	b.Txs = append'''),
  "expire-keeps-num": ("jrpc2/client.go", "		nh.Num = eth.Uint64(0)\n		nh.Hash.Write([]byte{})\n", ""),
  "latest-skip-update": ("jrpc2/client.go", "	c.lcache.update(hresp.Number, hresp.Hash)\n	return uint64(hresp.Number), hresp.Hash, nil", "	return uint64(hresp.Number), hresp.Hash, nil"),
+ "ws-wrong-number": ("jrpc2/client.go", "		c.lcache.update(res.P.R.Num, res.P.R.Hash)\n", "		c.lcache.update(res.P.R.Num+1, res.P.R.Hash)\n"),
+ "ws-error-swallowed": ("jrpc2/client.go", """			c.lcache.error(fmt.Errorf("ws read %q: %w", c.wsurl, err))
+			return""", """			return"""),
  "blocks-in-hcache": ("jrpc2/client.go", "blocks, err = c.bcache.get(c.nocache, ctx, url, start, limit, c.blocks)", "blocks, err = c.hcache.get(c.nocache, ctx, url, start, limit, c.blocks)"),
  "nocache-ignored": ("jrpc2/client.go", "	if nocache {\n		return f(ctx, url, start, limit)\n	}\n", ""),
  "logs-no-lock": ("jrpc2/client.go", "		b.Lock()\n		b.Header.Hash.Write(logs[0].BlockHash)", "		b.Header.Hash.Write(logs[0].BlockHash)"),
